@@ -56,7 +56,7 @@ def families(run, specs, seed, tag):
         off = seed % stride
         cfg = os.path.join(d, "%s.cfg" % fam)
         with open(cfg, "w") as f:
-            f.write('SPECIFICATION Spec\nCONSTANTS Fam = "%s" Stride = %d Off = %d\nINVARIANT Emit\nCHECK_DEADLOCK FALSE\n' % (fam, stride, off))
+            f.write('SPECIFICATION Spec\nCONSTANTS Fam = "%s" Stride = %d Off = %d WantM2 = FALSE\nINVARIANT Emit\nCHECK_DEADLOCK FALSE\n' % (fam, stride, off))
         res = core.tlc_mc("Families", cfg, workers=4, tag="fam-%s-%s" % (tag, fam), heap="6g")
         if res["violated"]:
             raise core.ToolError("Families.tla: unexpected violation " + str(res["violated"]))
@@ -280,7 +280,7 @@ def c05(tier, seed):
 
     def fam_counts(spec):
         fam, stride = spec
-        body = 'SPECIFICATION Spec\nCONSTANTS Fam = "%s" Stride = %d Off = %d\nINVARIANT NoEmit\nCHECK_DEADLOCK FALSE\n' % (fam, stride, seed % stride)
+        body = 'SPECIFICATION Spec\nCONSTANTS Fam = "%s" Stride = %d Off = %d WantM2 = FALSE\nINVARIANT NoEmit\nCHECK_DEADLOCK FALSE\n' % (fam, stride, seed % stride)
         return spec, view_counts(run, "Families", body, None, "c05-%s" % fam, workers=4)
     for (fam, stride), counts in core.pmap(fam_counts, fams, n=3):
         explored += counts["PosView"]
@@ -493,3 +493,213 @@ def c12(tier, seed):
     run.assumptions += ["upper-case promotion letters and over-long strings are outside the universe of move-shaped strings (grey)"]
     shutil.rmtree(d, ignore_errors=True)
     run.finish()
+
+
+# --------------------------------------------------------------------------- search layer
+
+import search as srch  # noqa: E402
+
+SEARCH_ASSUME = ["the search is driven in-process through get_best_move_until_stop with the poll hook; the UCI path is covered by C14",
+                 "root kinds (dead, single reply, mate in 1/2) are classified by TLC from spec/Chess.tla, not by the engine",
+                 "depth is bounded (<= 5 in-process on rich positions, to 255 on tiny ones)"]
+
+
+def search_pools(run, vh, prop, seed, quick, want_m2=False, stride=None):
+    classes = srch.solver_positions(run, seed, stride or (1200 if quick else 150), want_m2, prop)
+    flat, games = srch.game_positions(vh, prop, seed, 6 if quick else 30, 40 if quick else 80, 4)
+    roots = [(f, []) for f in gen.read_roots()]
+    rich = [x for x in flat + roots]
+    pools = {"dead": [(f, []) for f in classes.get("mate", []) + classes.get("stale", [])] or [("7k/5Q2/6K1/8/8/8/8/8 b - - 0 1", [])],
+             "only": [(f, []) for f in classes.get("only", [])] or [("7k/8/5K2/8/8/8/8/6R1 b - - 0 1", [])],
+             "mating": [(f, []) for f in classes.get("m1", [])] or [("6k1/5ppp/8/8/8/8/8/R5K1 w - - 0 1", [])],
+             "two": [(f, []) for f in srch.TINY] + [(f, []) for f in classes.get("only", [])[:0]],
+             "many": rich}
+    return classes, pools, flat, games
+
+
+def search_check_pv(prop, judged, tier, seed, build):
+    search_check(prop, judged, tier, seed, build, pv=True)
+
+
+def search_check(prop, judged, tier, seed, build, pv=False):
+    """build(run, vh, quick, rnd, classes, pools, flat, games) -> list of (label, histories)"""
+    import random
+    run = core.Run(prop, tier, seed)
+    vh = prepare()
+    quick = tier == "quick"
+    rnd = random.Random(seed)
+    game.trace_dir(prop)
+    batches = build(run, vh, quick, rnd)
+    total = 0
+    keys = set()
+    alljobs = []
+    for label, hs in batches:
+        jobs, n = srch.run_histories(run, vh, prop, hs, judged, label, pv=pv)
+        alljobs += jobs
+        total += n
+    for e in srch.read_events(alljobs):
+        if e.get("ev") == "go":
+            keys.add(("".join(e["fen"]), tuple(e["pre"]), e["limit"], e["stop"], e["fresh"]))
+    k = 0
+    for e in srch.read_events(alljobs[:1] + alljobs[-1:]):
+        if e.get("ev") == "go" and k < 5 and (k % 2 == 0 or e["stop"] >= 0):
+            run.sample({"fen": "".join(e["fen"]), "prefix": e["pre"], "limit": e["limit"], "stop_at_poll": e["stop"], "fresh_table": e["fresh"],
+                        "best": e["best"], "depths": e["info"]["depths"], "pvs": e["info"]["pvs"][-1:], "polls": e["polls"],
+                        "polls_after_stop": e["after"], "history": e["h"], "step": e["s"]})
+        k += 1
+    run.cov["evaluations"] = total
+    run.cov["distinct_nontrivial"] = len(keys)
+    run.cov["rule"] = ("one case = one search (root position, depth limit, stop poll index, table history before it); distinct by "
+                       "(root, prefix, limit, stop index, fresh); histories come from the SearchCtl.tla scenario enumeration (all table "
+                       "histories of 2 searches x stop classes) instantiated on TLC-classified positions, plus the batches named in "
+                       "coverage.batches")
+    run.cov["batches"] = {label: len(hs) for label, hs in batches}
+    run.assumptions += SEARCH_ASSUME
+    shutil.rmtree(os.path.join(game.TRACES, prop), ignore_errors=True)
+    run.finish()
+
+
+@check("C06")
+def c06(tier, seed):
+    def build(run, vh, quick, rnd):
+        srch.searchctl(run, 2, True, "C06")
+        if not quick:
+            srch.searchctl(run, 3, False, "C06b")
+        classes, pools, flat, games = search_pools(run, vh, "C06", seed, quick)
+        scns = [s for s in srch.scenarios(run, "C06") if all(x["stop"] == "natural" for x in s)]
+        if quick:
+            rnd.shuffle(scns)
+            scns = scns[:900]
+        hs = [srch.instantiate(s, pools, rnd) for s in scns]
+        depths = [1, 2, 3] if quick else [1, 2, 3, 4]
+        pos = rnd.sample(flat, min(len(flat), 12 if quick else 60)) + [(f, []) for f in srch.TINY]
+        th = srch.table_histories(rnd, pos, games[:4 if quick else 20], depths, 300 if quick else 1500)
+        rep = [[srch.step("startpos", srch.REPETITION_PREFIX, limit=d), srch.step("startpos", srch.REPETITION_PREFIX + ["g8f6"], limit=d)] for d in depths]
+        return [("scn", hs), ("tablehist", th), ("repetition", rep)]
+    search_check("C06", {"C06"}, tier, seed, build)
+
+
+@check("C07")
+def c07(tier, seed):
+    def build(run, vh, quick, rnd):
+        srch.searchctl(run, 2, True, "C07")
+        classes, pools, flat, games = search_pools(run, vh, "C07", seed, quick)
+        # (1) every abstract history with a stop in it, from the SearchCtl.tla enumeration
+        scns = [s for s in srch.scenarios(run, "C07") if any(x["stop"] != "natural" for x in s)]
+        if quick:
+            rnd.shuffle(scns)
+            scns = scns[:500]
+        hs = [srch.instantiate(s, pools, rnd) for s in scns]
+        # (2) exhaustive in the stop index: pilot run counts the polls, then one search per index 0..total
+        pos = [(f, []) for f in gen.read_roots()[:: (3 if quick else 1)]] + rnd.sample(flat, min(len(flat), 6 if quick else 40))
+        pos += [(f, []) for f in classes.get("only", [])[:3] + classes.get("m1", [])[:3]]
+        pilots = [[srch.step(f, p, limit=(3 if quick else 4), tag="pilot")] for f, p in pos]
+        pj, _ = srch.run_histories(run, vh, "C07", pilots, {"C07"}, "pilot")
+        totals = {}
+        for e in srch.read_events(pj):
+            if e.get("ev") == "go":
+                totals[("".join(e["fen"]), tuple(e["pre"]))] = e["polls"]
+        sweep = []
+        cap = 400 if quick else 6000
+        for f, p in pos:
+            t = totals.get((f, tuple(p)), 0)
+            idx = list(range(0, min(t, cap) + 2))
+            if t > cap:
+                idx += sorted(rnd.sample(range(cap, t + 1), min(200 if quick else 2000, t + 1 - cap)))
+            for n in idx:
+                sweep.append([srch.step(f, p, limit=(3 if quick else 4), stop=n, tag="sweep")])
+            # the same with a table warmed by an earlier search of the same position
+            for n in idx[:: (7 if quick else 3)]:
+                sweep.append([srch.step(f, p, limit=1, tag="warm"), srch.step(f, p, limit=None, stop=n, tag="sweep-warm")])
+        run.cov["stop_indices_per_position"] = {f[:30]: totals.get((f, tuple(p)), 0) for f, p in pos[:8]}
+        return [("scn", hs), ("stopsweep", sweep)]
+    search_check("C07", {"C07"}, tier, seed, build)
+
+
+@check("C08")
+def c08(tier, seed):
+    def build(run, vh, quick, rnd):
+        srch.searchctl(run, 2, True, "C08")
+        if not quick:
+            srch.searchctl(run, 3, False, "C08b")
+        classes, pools, flat, games = search_pools(run, vh, "C08", seed, quick)
+        scns = [s for s in srch.scenarios(run, "C08") if any(x["limit"] > 0 for x in s)]
+        if quick:
+            rnd.shuffle(scns)
+            scns = scns[:500]
+        hs = [srch.instantiate(s, pools, rnd) for s in scns]
+        # deeper-then-shallower on the same position, all pairs of limits, rich and tiny positions
+        pos = rnd.sample(flat, min(len(flat), 8 if quick else 40)) + [(f, []) for f in srch.TINY]
+        lims = [1, 2, 3, 4] if quick else [1, 2, 3, 4, 5]
+        pairs = [[srch.step(f, p, limit=a), srch.step(f, p, limit=b), srch.step(f, p, limit=c)]
+                 for f, p in pos for a in lims for b in lims for c in (1, 2) if not (a <= b <= c)]
+        rnd.shuffle(pairs)
+        pairs = pairs[:250 if quick else 3000]
+        # every limit class 1..255 on tiny positions where deep iterations are cheap
+        deep_lims = [1, 2, 3, 5, 8, 31, 32, 33, 34, 64, 128, 254, 255] if not quick else [1, 5, 32, 33, 34, 64, 255]
+        deep = []
+        for f in [srch.KVK, "8/8/8/8/8/1k6/8/K7 b - - 0 1"] + ([srch.KPK] if not quick else []):
+            for a in deep_lims:
+                deep.append([srch.step(f, [], limit=a, watch_ms=20000)])
+            deep.append([srch.step(f, [], limit=255, watch_ms=20000), srch.step(f, [], limit=33, watch_ms=20000), srch.step(f, [], limit=1, watch_ms=20000)])
+        # unlimited searches left running (watchdog = the moment somebody finally says stop)
+        unl = [[srch.step(f, [], limit=None, watch_ms=(1500 if quick else 20000), tag="unlimited")] for f in srch.TINY + [START, KIWI]]
+        unl.append([srch.step(srch.KVK, [], limit=None, watch_ms=20000), srch.step(srch.KVK, [], limit=None, watch_ms=20000),
+                    srch.step(srch.KVK, [], limit=3, watch_ms=20000)])
+        return [("scn", hs), ("limitpairs", pairs), ("deeplimits", deep), ("unlimited", unl)]
+    search_check("C08", {"C08"}, tier, seed, build)
+
+
+@check("C10")
+def c10(tier, seed):
+    def build(run, vh, quick, rnd):
+        classes = srch.solver_positions(run, seed, 700 if quick else 60, True, "C10")
+        m1 = classes.get("m1", [])
+        m2 = classes.get("m2", [])
+        if quick:
+            m1 = rnd.sample(m1, min(len(m1), 25))
+            m2 = rnd.sample(m2, min(len(m2), 10))
+        dead = classes.get("mate", []) + classes.get("stale", [])
+        extra_m1 = ["6k1/5ppp/8/8/8/8/8/R5K1 w - - 0 1", "r1bqkb1r/pppp1ppp/2n2n2/4p2Q/2B1P3/8/PPPP1PPP/RNB1K1NR w KQkq - 4 4",
+                    "6k1/8/8/8/8/8/r4PPP/6K1 b - - 0 1"]
+        extra_m2 = ["7k/8/5K2/8/8/8/8/6R1 w - - 0 1", "r2qkb1r/pp2nppp/3p4/2pNN1B1/2BnP3/3P4/PPP2PPP/R2bK2R w KQkq - 1 1"]
+        extra_dead = ["7k/5Q2/6K1/8/8/8/8/8 b - - 0 1", "R5k1/5ppp/8/8/8/8/8/6K1 b - - 0 1", "rnb1kbnr/pppp1ppp/8/4p3/6Pq/5P2/PPPPP2P/RNBQKBNR w KQkq - 1 3"]
+        hs = []
+        for f in m1 + extra_m1:
+            for d in (3, 4, 5):
+                hs.append([srch.step(f, [], limit=d, mate=1)])
+            hs.append([srch.step(f, [], limit=None, mate=1, watch_ms=8000)])
+        for f in m2 + (extra_m2[:1] if quick else extra_m2):
+            for d in (5, 6):
+                hs.append([srch.step(f, [], limit=d, mate=2, watch_ms=30000)])
+            hs.append([srch.step(f, [], limit=None, mate=2, watch_ms=30000)])
+        for f in dead + extra_dead:
+            for d in (1, 3, None):
+                hs.append([srch.step(f, [], limit=d)])
+        run.cov["solver_classes"] = {k: len(v) for k, v in classes.items()}
+        return [("mates", hs)]
+    search_check("C10", {"C10"}, tier, seed, build)
+
+
+@check("C18")
+def c18(tier, seed):
+    import random
+
+    def build(run, vh, quick, rnd):
+        srch.searchctl(run, 2, False if quick else True, "C18")
+        classes, pools, flat, games = search_pools(run, vh, "C18", seed, quick)
+        depths = [1, 2, 3, 4] if quick else [1, 2, 3, 4, 5]
+        pos = rnd.sample(flat, min(len(flat), 20 if quick else 100)) + [(f, []) for f in gen.read_roots()]
+        th = srch.table_histories(rnd, pos, games[:6 if quick else 30], depths, 250 if quick else 2500)
+        # long games on one table: the line is rebuilt by walking cached moves hash to hash
+        long = []
+        for g in games[:3 if quick else 15]:
+            long.append([srch.step(f, p, limit=rnd.choice(depths), tag="long") for f, p in g[:12 if quick else 40]])
+        # other games on the same table, then back
+        mixed = []
+        for _ in range(40 if quick else 400):
+            a, b = rnd.choice(pos), rnd.choice(pos)
+            mixed.append([srch.step(a[0], a[1], limit=rnd.choice(depths)), srch.step(b[0], b[1], limit=rnd.choice(depths)),
+                          srch.step(a[0], a[1], limit=rnd.choice(depths)), srch.step(a[0], a[1], limit=None, stop=rnd.randrange(50, 5000))])
+        return [("tablehist", th), ("longgames", long), ("mixed", mixed)]
+    search_check_pv("C18", {"C18"}, tier, seed, build)
